@@ -61,7 +61,7 @@ PROPS = {
              "runs_quick": 3000, "time_quick": 35, "runs_thorough": 200000, "time_thorough": 600},
         ],
         "min_counters": {"lookup_checks": 500, "spki_cb": 500},
-        "expected_probes": ["probe_hash_grow", "probe_hash_grow2", "probe_hash_shrink", "probe_srcrm_nonempty"],
+        "expected_probes": ["probe_hash_grow", "probe_hash_grow2", "probe_hash_shrink", "probe_hash_regrow_during_shrink", "probe_srcrm_nonempty"],
         "assumptions": ["model: std::set of (asn, ski, spki, source)"],
     },
     "C16": {
